@@ -10,6 +10,25 @@ E3 = 'TLC model checking of a TLA+ model generated from the documented tables, w
 
 # pid -> (engine, technique, level text, note, design_ref)
 CHECKS = {
+    'C14': ('E1+E2', E1 + '; ' + E2 + ' (Spectrum.to sequences)',
+            'Complete enumeration of the 7^3 wavelength-unit name triples (all aliases and case variants) and 3^3 flux-unit triples '
+            'for composition, identity, round trip and agreement with an independent table; explicit-state search over all sequences '
+            '(depth 4/5, to a fixed point of the de-duplicated state set) of Spectrum.to over the 10 unit names from each of the 16 '
+            '(waveunit, valueunit) starts with an independent SI model: same physical spectrum, integral preserved for densities, '
+            'values preserved when unit-less, unit-less -> flux refused without side effect; Planck radiance/exitance for all 7x3 unit '
+            'pairs x 4 temperatures against a longdouble/expm1 reference, exitance = pi radiance, Wien peak, Stefan-Boltzmann total; '
+            'vegaflux consistent over all units for all 12 bands.',
+            "Trusted: numpy; the library's own h, c, k; the long aliases are not demanded of Spectrum.to (refusal must be side-effect free).",
+            'DESIGN.md section 4 C14'),
+    'C15': ('E1+E2', E1 + '; ' + E2 + ' (resizing histories)',
+            'integrate on 6 grids x unit-vector and generic values x all sample-point pairs x both rules (linearity, additivity at '
+            'sample points and exactness against Fraction integrals for trapz, straight-line exactness for Simpson); bin on 6 centre '
+            'sets x both end treatments x both rules x preserve_power x {nm, um} (length, exact bin integrals of a linear spectrum, '
+            'non-negativity on every unit impulse, sum = integral over the centre span); explicit-state search to depth 3/4 over 23 '
+            'resizing events (crop, trim, pad, append legal/illegal, resample legal/illegal) from 5 start spectra, with the '
+            'well-formedness invariants checked after every event including refused ones and crop/trim compared with a list model.',
+            'Trusted: numpy/scipy; Simpson judged only where the statement applies (uniform centres).',
+            'DESIGN.md section 4 C15'),
     'C13': ('E1', E1,
             'Operand pairs on integer-nm grids (identical, nested, partially overlapping, disjoint, non-uniform; both orders) x 5 '
             'operators x sampling {min,left,right,25} x method {linear,quadratic,cubic} x fill {0,1} x wavelength unit of each operand '
